@@ -30,7 +30,7 @@ REQUIRED_MONITORS = ('cli_vs_library_bytes', 'discovery_vs_truth', 'discovery_ha
 REQUIRED_CLASSES = ('mol:explicit-only', 'mol:explicit+auto', 'auto-only', 'exclude', 'exclude:several', 'output:given', 'output:default',
                     'input:other-directory', 'distractor:absent-species-topology', 'distractor:foreign-coordinates',
                     'distractor:unknown-extension', 'distractor:system-file-in-list', 'distractor:previous-output',
-                    'species-without-end-files', 'explicit-also-in-list', 'mol:end-topology-named-differently', 'paths:explicit-and-listed-spelled-differently', 'scale:non-default', 'output-path:absolute',
+                    'species-without-end-files', 'explicit-also-in-list', 'mol:end-topology-named-differently', 'candidates:files-listed-twice', 'paths:explicit-and-listed-spelled-differently', 'scale:non-default', 'output-path:absolute',
                     'output-path:relative-plain', 'output-path:relative-subdir')
 RULE = ('generated directories of 2-4 species with distractor files (topologies of absent species, foreign coordinate files, '
         'unknown extensions, the system file and a previous output in the candidate list, a species without end files) x '
@@ -319,6 +319,11 @@ def run_world(ctx, case):
         if any(w['files'][n]['top_start'] in candidates for n in explicit):
             ctx.hit('explicit-also-in-list')
         candidates = [respell(c) if rng.random() < 0.3 else c for c in candidates]
+        if rng.random() < 0.4:
+            # the same file named more than once (overlapping shell globs)
+            for c in [candidates[int(j)] for j in rng.integers(0, len(candidates), int(rng.integers(1, 4)))]:
+                candidates.insert(int(rng.integers(0, len(candidates) + 1)), c)
+            ctx.hit('candidates:files-listed-twice')
         candidates += extra
         candidates = [candidates[int(j)] for j in rng.permutation(len(candidates))]
     auto_found = [n for n in complete if n not in explicit] if auto else []
